@@ -522,28 +522,78 @@ theorem removeAll_good (P : Params) {dir : Path} {top : String} {v : Nat} :
       · rw [e]; exact G1
       · exact h1 w' e
 
+theorem cleanupLoop_good (P : Params) {dir : Path} {top : String} {v : Nat} (cacheSize : Nat) :
+    ∀ (fs : List String) (w : World) (kept : Nat), Good P w dir top v → (∀ f ∈ fs, f ≠ top ∧ isCacheName f = true) →
+      (∀ w' ∈ (cleanupLoop P dir cacheSize w kept fs).visited, Good P w' dir top v) ∧
+      Good P (cleanupLoop P dir cacheSize w kept fs).last dir top v := by
+  intro fs
+  induction fs with
+  | nil => intro w kept G _; simp [cleanupLoop, G]
+  | cons f fs ih =>
+    intro w kept G hfs
+    obtain ⟨hft, hfc⟩ := hfs f (by simp)
+    unfold cleanupLoop
+    split
+    · exact ih w (kept + 1) G (fun g hg => hfs g (by simp [hg]))
+    · rw [remove_entry G.inv.lex f (isCacheName_simple hfc)]
+      unfold pRemove
+      cases hf : find w (dir ++ [f]) with
+      | none => simp [G]
+      | some n =>
+        have hk := G.inv.files f n hf
+        have hne : (dir ++ [f] == []) = false := by simp
+        simp only [hne, hk, Bool.false_eq_true, if_false, List.dropLast_concat]
+        have hb : ((Kind.file == Kind.dir) && hasChild w (dir ++ [f])) = false := by simp
+        simp only [hb, Bool.false_eq_true, if_false]
+        have U := inv_erase G.inv f
+        have G1 : Good P (touch (AMap.erase w (dir ++ [f])) dir) dir top v := by
+          refine G.step U.inv (U.frame top (by simpa using fun e => hft e.symm)) (fun nm hc hp => ?_)
+          by_cases e : nm = f
+          · subst e; rw [find_erase_entry] at hp; simp at hp
+          · rw [← U.frame nm (by simpa using e)]; exact hp
+        obtain ⟨h1, h2⟩ := ih _ kept G1 (fun g hg => hfs g (by simp [hg]))
+        refine ⟨fun w' hw' => ?_, h2⟩
+        rcases List.mem_cons.mp hw' with e | e
+        · rw [e]; exact G1
+        · exact h1 w' e
+
 theorem cleanup_good (P : Params) {w : World} {dir : Path} {top : String} {v : Nat} (G : Good P w dir top v)
     (cacheSize : Nat) (hcs : 1 ≤ cacheSize) :
-    (∀ w' ∈ (cleanupOldVersions w dir cacheSize).visited, Good P w' dir top v) ∧
-    Good P (cleanupOldVersions w dir cacheSize).last dir top v := by
+    (∀ w' ∈ (cleanupOldVersions P w dir cacheSize).visited, Good P w' dir top v) ∧
+    Good P (cleanupOldVersions P w dir cacheSize).last dir top v := by
   unfold cleanupOldVersions
   rw [listCacheFiles_eq G.inv]
   simp only
   split
   · simp [G]
   · obtain ⟨rest, hL⟩ := G.head
-    apply removeAll_good P _ w G
-    intro f hf
     have hnd := nodup_cacheList w dir
-    rw [hL] at hf hnd
-    have hfr : f ∈ rest := by
-      obtain ⟨k, hk⟩ := Nat.exists_eq_add_of_le hcs
-      rw [hk, Nat.add_comm, List.drop_succ_cons] at hf
-      exact List.mem_of_mem_drop hf
-    refine ⟨fun e => ?_, ?_⟩
-    · subst e; exact (List.nodup_cons.mp hnd).1 hfr
-    · have : f ∈ cacheList w dir := by rw [hL]; simp [hfr]
-      exact ((mem_cacheList w dir f).mp this).1
+    have hrest : ∀ f ∈ rest, f ≠ top ∧ isCacheName f = true := by
+      intro f hfr
+      rw [hL] at hnd
+      refine ⟨fun e => ?_, ?_⟩
+      · subst e; exact (List.nodup_cons.mp hnd).1 hfr
+      · have : f ∈ cacheList w dir := by rw [hL]; simp [hfr]
+        exact ((mem_cacheList w dir f).mp this).1
+    split
+    · -- repaired loop: the newest file is `top`, it parses, it is kept
+      rw [hL]
+      obtain ⟨n, hf, hv⟩ := G.present
+      have hrp : (readParse P w dir top).isSome = true := by
+        rw [readParse_entry P G.inv top (isCacheName_simple G.cache), hf]; simp [hv]
+      unfold cleanupLoop
+      have hk : (decide (0 < cacheSize) && (readParse P w dir top).isSome) = true := by
+        simp [hrp]; omega
+      simp only [hk, if_true]
+      exact cleanupLoop_good P cacheSize rest w 1 G hrest
+    · apply removeAll_good P _ w G
+      intro f hf
+      rw [hL] at hf
+      have hfr : f ∈ rest := by
+        obtain ⟨k, hk⟩ := Nat.exists_eq_add_of_le hcs
+        rw [hk, Nat.add_comm, List.drop_succ_cons] at hf
+        exact List.mem_of_mem_drop hf
+      exact hrest f hfr
 
 /-! ### saveToCache, update -/
 
@@ -666,5 +716,298 @@ theorem update_spec (P : Params) (hA : P.atomic = true) (hB : P.fallbackOlder = 
     refine ⟨fun w' hw' => ?_, c2.inv, c2.get hB⟩
     simp only [Tr.andThen, List.nil_append] at hw'
     exact ⟨(c1 w' hw').inv, Or.inr ((c1 w' hw').get hB)⟩
+
+/-! ### without any assumption on the clock: some usable cached version always remains -/
+
+/-- `g` is a cache file that `getCachedConfig` can use -/
+def validC (P : Params) (w : World) (dir : Path) (g : String) : Prop :=
+  isCacheName g = true ∧ (readParse P w dir g).isSome = true
+
+def HasValid (P : Params) (w : World) (dir : Path) : Prop := ∃ g, validC P w dir g
+
+theorem validC_mem {P : Params} {w : World} {dir : Path} (I : Inv w dir) {g : String} (h : validC P w dir g) :
+    g ∈ cacheList w dir := by
+  refine (mem_cacheList w dir g).mpr ⟨h.1, ?_⟩
+  have := h.2
+  rw [readParse_entry P I g (isCacheName_simple h.1)] at this
+  cases hf : find w (dir ++ [g]) with
+  | none => simp [hf] at this
+  | some _ => rfl
+
+theorem getCached_isSome_iff (P : Params) (hB : P.fallbackOlder = true) {w : World} {dir : Path} (I : Inv w dir) :
+    (getCachedConfig P w dir).isSome = true ↔ HasValid P w dir := by
+  rw [getCached_eq P hB I, List.findSome?_isSome_iff]
+  constructor
+  · rintro ⟨g, hg, hv⟩
+    exact ⟨g, ((mem_cacheList w dir g).mp hg).1, hv⟩
+  · rintro ⟨g, hg⟩
+    exact ⟨g, validC_mem I hg, hg.2⟩
+
+theorem validC_congr {P : Params} {w w' : World} {dir : Path} (I : Inv w dir) (I' : Inv w' dir) {g : String}
+    (hf : find w' (dir ++ [g]) = find w (dir ++ [g])) (h : validC P w dir g) : validC P w' dir g := by
+  refine ⟨h.1, ?_⟩
+  rw [readParse_entry P I' g (isCacheName_simple h.1), hf, ← readParse_entry P I g (isCacheName_simple h.1)]
+  exact h.2
+
+structure Valid (P : Params) (w : World) (dir : Path) : Prop where
+  inv : Inv w dir
+  has : HasValid P w dir
+
+theorem Valid.of_upd {P : Params} {w w' : World} {dir : Path} (V : Valid P w dir) {S : List String}
+    (U : Upd w w' dir S) (hS : ∀ a ∈ S, isCacheName a = false) : Valid P w' dir := by
+  obtain ⟨g, hg⟩ := V.has
+  refine ⟨U.inv, g, validC_congr V.inv U.inv (U.frame g (fun hm => ?_)) hg⟩
+  have := hg.1; rw [hS g hm] at this; exact Bool.noConfusion this
+
+theorem Valid.isSome {P : Params} (hB : P.fallbackOlder = true) {w : World} {dir : Path} (V : Valid P w dir) :
+    (getCachedConfig P w dir).isSome = true := (getCached_isSome_iff P hB V.inv).mpr V.has
+
+/-- the repaired cleanup never removes the newest usable file -/
+theorem cleanupLoop_valid (P : Params) {dir : Path} (cacheSize : Nat) (hcs : 1 ≤ cacheSize) :
+    ∀ (fs : List String) (w : World) (kept : Nat), Inv w dir → (∀ f ∈ fs, isCacheName f = true) → fs.Nodup →
+      ((∃ g, g ∉ fs ∧ validC P w dir g) ∨ (kept = 0 ∧ ∃ f ∈ fs, validC P w dir f)) →
+      (∀ w' ∈ (cleanupLoop P dir cacheSize w kept fs).visited, Valid P w' dir) ∧
+      Valid P (cleanupLoop P dir cacheSize w kept fs).last dir := by
+  intro fs
+  induction fs with
+  | nil =>
+    intro w kept I _ _ hq
+    rcases hq with ⟨g, _, hg⟩ | ⟨_, f, hf, _⟩
+    · simp [cleanupLoop]; exact ⟨I, g, hg⟩
+    · simp at hf
+  | cons f fs ih =>
+    intro w kept I hc hnd hq
+    have hfc := hc f (by simp)
+    have hnd' := (List.nodup_cons.mp hnd)
+    unfold cleanupLoop
+    by_cases hkeep : (decide (kept < cacheSize) && (readParse P w dir f).isSome) = true
+    · simp only [hkeep, if_true]
+      refine ih w (kept + 1) I (fun g hg => hc g (by simp [hg])) hnd'.2 (Or.inl ⟨f, hnd'.1, hfc, ?_⟩)
+      simp only [Bool.and_eq_true] at hkeep; exact hkeep.2
+    · simp only [hkeep, Bool.false_eq_true, if_false]
+      have hV : Valid P w dir := by
+        rcases hq with ⟨g, _, hg⟩ | ⟨_, g, _, hg⟩ <;> exact ⟨I, g, hg⟩
+      rw [remove_entry I.lex f (isCacheName_simple hfc)]
+      unfold pRemove
+      cases hf : find w (dir ++ [f]) with
+      | none => simp [hV]
+      | some n =>
+        have hk := I.files f n hf
+        have hne : (dir ++ [f] == []) = false := by simp
+        simp only [hne, hk, Bool.false_eq_true, if_false, List.dropLast_concat]
+        have hb : ((Kind.file == Kind.dir) && hasChild w (dir ++ [f])) = false := by simp
+        simp only [hb, Bool.false_eq_true, if_false]
+        have U := inv_erase I f
+        have hq1 : (∃ g, g ∉ fs ∧ validC P (touch (AMap.erase w (dir ++ [f])) dir) dir g) ∨
+            (kept = 0 ∧ ∃ g ∈ fs, validC P (touch (AMap.erase w (dir ++ [f])) dir) dir g) := by
+          rcases hq with ⟨g, hgn, hg⟩ | ⟨hk0, g, hgm, hg⟩
+          · have hgf : g ≠ f := fun e => hgn (by simp [e])
+            exact Or.inl ⟨g, fun h => hgn (by simp [h]), validC_congr I U.inv (U.frame g (by simpa using hgf)) hg⟩
+          · have hgf : g ≠ f := by
+              intro e; subst e
+              apply hkeep
+              simp only [Bool.and_eq_true, decide_eq_true_eq]
+              exact ⟨by omega, hg.2⟩
+            have hgfs : g ∈ fs := by
+              rcases List.mem_cons.mp hgm with e | e
+              · exact absurd e hgf
+              · exact e
+            exact Or.inr ⟨hk0, g, hgfs, validC_congr I U.inv (U.frame g (by simpa using hgf)) hg⟩
+        obtain ⟨h1, h2⟩ := ih _ kept U.inv (fun g hg => hc g (by simp [hg])) hnd'.2 hq1
+        have hV1 : Valid P (touch (AMap.erase w (dir ++ [f])) dir) dir := by
+          rcases hq1 with ⟨g, _, hg⟩ | ⟨_, g, _, hg⟩ <;> exact ⟨U.inv, g, hg⟩
+        refine ⟨fun w' hw' => ?_, h2⟩
+        rcases List.mem_cons.mp hw' with e | e
+        · rw [e]; exact hV1
+        · exact h1 w' e
+
+theorem cleanup_valid (P : Params) (hC : P.validCleanup = true) {w : World} {dir : Path} (V : Valid P w dir)
+    (cacheSize : Nat) (hcs : 1 ≤ cacheSize) :
+    (∀ w' ∈ (cleanupOldVersions P w dir cacheSize).visited, Valid P w' dir) ∧
+    Valid P (cleanupOldVersions P w dir cacheSize).last dir := by
+  unfold cleanupOldVersions
+  rw [listCacheFiles_eq V.inv]
+  simp only [hC, if_true]
+  split
+  · simp [V]
+  · obtain ⟨g, hg⟩ := V.has
+    exact cleanupLoop_valid P cacheSize hcs _ w 0 V.inv
+      (fun f hf => ((mem_cacheList w dir f).mp hf).1) (nodup_cacheList w dir)
+      (Or.inr ⟨rfl, g, validC_mem V.inv hg, hg⟩)
+
+theorem valid_wof (P : Params) (hA : P.atomic = true) {w : World} {dir : Path}
+    (V : Valid P w dir) (tmp name : String) (hT : TmpOK w dir tmp) (hsn : simple name = true)
+    (hnc : isCacheName name = false) (hne : tmp ≠ name) (data : Bytes) :
+    (∀ w' ∈ (writeOwnerOnlyFile P w dir tmp name data).visited, Valid P w' dir) ∧
+    Valid P (writeOwnerOnlyFile P w dir tmp name data).last dir ∧
+    Upd w (writeOwnerOnlyFile P w dir tmp name data).last dir [name] := by
+  obtain ⟨_, hv, hl, _⟩ := wof_spec P hA V.inv tmp name hT.simple hsn hne hT.fresh data
+  have hlast := V.of_upd hl (by simp [hnc])
+  refine ⟨fun w' hw' => ?_, hlast, hl⟩
+  rcases hv w' hw' with e | U
+  · rw [e]; exact hlast
+  · exact V.of_upd U (by simp [hT.notCache])
+
+structure TV (P : Params) (w : World) (dir : Path) (tmpc : String) (now : Nat) (a : Tr) : Prop where
+  vis : ∀ w' ∈ a.visited, Upd w w' dir [tmpc] ∨ Valid P w' dir
+  last : Valid P a.last dir
+  upd : Upd w a.last dir (metaNames now)
+
+theorem tv_step (P : Params) (hA : P.atomic = true) {w : World} {dir : Path} {tmpc : String} {now : Nat} {a : Tr}
+    (h : TV P w dir tmpc now a) (tmp name : String) (hT : TmpOK w dir tmp) (hsn : simple name = true)
+    (hnc : isCacheName name = false) (hne : tmp ≠ name) (hmem : name ∈ metaNames now) (data : Bytes) :
+    TV P w dir tmpc now (a.andThen fun w => writeOwnerOnlyFile P w dir tmp name data) := by
+  have hT' : TmpOK a.last dir tmp := hT.of_upd h.upd (hT.not_meta now)
+  obtain ⟨g1, g2, g3⟩ := valid_wof P hA h.last tmp name hT' hsn hnc hne data
+  refine ⟨fun w' hw' => ?_, g2, (h.upd.trans g3).mono (fun x hx => ?_)⟩
+  · simp only [Tr.andThen, List.mem_append] at hw'
+    rcases hw' with e | e
+    · exact h.vis w' e
+    · exact Or.inr (g1 w' e)
+  · rcases List.mem_append.mp hx with e | e
+    · exact e
+    · simp at e; rw [e]; exact hmem
+
+theorem save_valid (P : Params) (hA : P.atomic = true) {w : World} {dir : Path} (I : Inv w dir) (T : Tmps)
+    (h1 : TmpOK w dir T.cfg) (h2 : TmpOK w dir T.etag) (h3 : TmpOK w dir T.lm) (h4 : TmpOK w dir T.refresh)
+    (now : Nat) (data etag lm refresh : Bytes) (v : Nat) (hv : P.parse data = some v) :
+    (∀ w' ∈ (saveToCache P w dir T now data etag lm refresh).visited, Upd w w' dir [T.cfg] ∨ Valid P w' dir) ∧
+    Valid P (saveToCache P w dir T now data etag lm refresh).last dir := by
+  have hcn := isCacheName_cfgName now
+  have hne : T.cfg ≠ cfgName now := fun e => by
+    have := h1.notCache; rw [e, hcn] at this; exact Bool.noConfusion this
+  obtain ⟨hok, hvis, hl, n, hn, hd⟩ :=
+    wof_spec P hA I T.cfg (cfgName now) h1.simple (isCacheName_simple hcn) hne h1.fresh data
+  have V1 : Valid P (writeOwnerOnlyFile P w dir T.cfg (cfgName now) data).last dir := by
+    refine ⟨hl.inv, cfgName now, hcn, ?_⟩
+    rw [readParse_entry P hl.inv _ (isCacheName_simple hcn), hn]; simp [hd, hv]
+  have t1 : TV P w dir T.cfg now (writeOwnerOnlyFile P w dir T.cfg (cfgName now) data) :=
+    ⟨fun w' hw' => by
+        rcases hvis w' hw' with e | e
+        · rw [e]; exact Or.inr V1
+        · exact Or.inl e,
+      V1, hl.mono (by simp [metaNames])⟩
+  have t2 : TV P w dir T.cfg now
+      (if etag.isEmpty then writeOwnerOnlyFile P w dir T.cfg (cfgName now) data
+       else (writeOwnerOnlyFile P w dir T.cfg (cfgName now) data).andThen fun w => writeOwnerOnlyFile P w dir T.etag etagFile etag) := by
+    split
+    · exact t1
+    · exact tv_step P hA t1 T.etag etagFile h2 (by decide) (by decide) h2.ne1 (by simp [metaNames]) etag
+  have t3 := fun (a : Tr) (ha : TV P w dir T.cfg now a) =>
+    show TV P w dir T.cfg now
+      (if lm.isEmpty then a else a.andThen fun w => writeOwnerOnlyFile P w dir T.lm lastModifiedFile lm) from by
+    split
+    · exact ha
+    · exact tv_step P hA ha T.lm lastModifiedFile h3 (by decide) (by decide) h3.ne2 (by simp [metaNames]) lm
+  have t4 := fun (a : Tr) (ha : TV P w dir T.cfg now a) =>
+    tv_step P hA ha T.refresh lastRefreshFile h4 (by decide) (by decide) h4.ne3 (by simp [metaNames]) refresh
+  have tfin := t4 _ (t3 _ t2)
+  unfold saveToCache
+  simp only [hok, Bool.not_true, Bool.false_eq_true, if_false]
+  exact ⟨tfin.vis, tfin.last⟩
+
+/-- no clock assumption: every visited world either reads like before or has a usable cached version -/
+theorem update_valid (P : Params) (hA : P.atomic = true) (hB : P.fallbackOlder = true) (hC : P.validCleanup = true)
+    {w : World} {dir : Path} (I : Inv w dir) (T : Tmps)
+    (h1 : TmpOK w dir T.cfg) (h2 : TmpOK w dir T.etag) (h3 : TmpOK w dir T.lm) (h4 : TmpOK w dir T.refresh)
+    (cacheSize : Nat) (hcs : 1 ≤ cacheSize)
+    (now : Nat) (data etag lm refresh : Bytes) (v : Nat) (hv : P.parse data = some v) :
+    (∀ w' ∈ (update P w dir T cacheSize now data etag lm refresh).visited, Inv w' dir ∧
+        (getCachedConfig P w' dir = getCachedConfig P w dir ∨ (getCachedConfig P w' dir).isSome = true)) ∧
+    Valid P (update P w dir T cacheSize now data etag lm refresh).last dir := by
+  unfold update
+  by_cases hnew : isNewPayload w dir data = true
+  · simp only [hnew, if_true]
+    obtain ⟨s1, s2⟩ := save_valid P hA I T h1 h2 h3 h4 now data etag lm refresh v hv
+    obtain ⟨c1, c2⟩ := cleanup_valid P hC s2 cacheSize hcs
+    refine ⟨fun w' hw' => ?_, c2⟩
+    simp only [Tr.andThen, List.mem_append] at hw'
+    rcases hw' with e | e
+    · rcases s1 w' e with U | V
+      · refine ⟨U.inv, Or.inl ?_⟩
+        exact getCached_congr P hB I U.inv (fun nm hc => U.frame nm (by
+          intro hm; simp at hm; rw [hm, h1.notCache] at hc; exact Bool.noConfusion hc))
+      · exact ⟨V.inv, Or.inr (V.isSome hB)⟩
+    · exact ⟨(c1 w' e).inv, Or.inr ((c1 w' e).isSome hB)⟩
+  · have hV : Valid P w dir := by
+      unfold isNewPayload at hnew
+      rw [listCacheFiles_eq I] at hnew
+      cases hL : cacheList w dir with
+      | nil => simp [hL] at hnew
+      | cons f rest =>
+        simp only [hL] at hnew
+        have hm : f ∈ cacheList w dir := by rw [hL]; simp
+        obtain ⟨hc, hp⟩ := (mem_cacheList w dir f).mp hm
+        obtain ⟨n, hn⟩ := Option.isSome_iff_exists.mp hp
+        have hrf : readFile w (dir ++ [f]) = .ok n.data := by
+          unfold readFile
+          rw [stat_entry I.lex f (isCacheName_simple hc) (I.notLink f), hn]
+          simp [I.files f n hn]
+        rw [hrf] at hnew
+        have hd : n.data = data := by simpa using hnew
+        refine ⟨I, f, hc, ?_⟩
+        rw [readParse_entry P I f (isCacheName_simple hc), hn]; simp [hd, hv]
+    simp only [hnew, Bool.false_eq_true, if_false]
+    obtain ⟨c1, c2⟩ := cleanup_valid P hC hV cacheSize hcs
+    refine ⟨fun w' hw' => ?_, c2⟩
+    simp only [Tr.andThen, List.nil_append] at hw'
+    exact ⟨(c1 w' hw').inv, Or.inr ((c1 w' hw').isSome hB)⟩
+
+/-! ### an unusable cache file is invisible (power loss after the rename: data not durable) -/
+
+theorem findSome_insertDesc {β : Type} (f : String → Option β) (a : String) (ha : f a = none) :
+    ∀ l : List String, (insertDesc a l).findSome? f = l.findSome? f
+  | [] => by simp [insertDesc, ha]
+  | b :: l => by
+    unfold insertDesc
+    split
+    · simp [List.findSome?_cons, ha]
+    · simp only [List.findSome?_cons]
+      cases f b with
+      | some _ => rfl
+      | none => exact findSome_insertDesc f a ha l
+
+theorem insertDesc_sorted' (a : String) (l : List String) (h : l.Pairwise (fun x y => y ≤ x)) :
+    (insertDesc a l).Pairwise (fun x y => y ≤ x) := insertDesc_sorted a l h
+
+/-- A world that differs from `w` in the cache-named entries only by one additional file `nm` whose
+content does not parse reads exactly like `w`. -/
+theorem getCached_extra_unusable (P : Params) (hB : P.fallbackOlder = true) {w w' : World} {dir : Path}
+    (I : Inv w dir) (I' : Inv w' dir) (nm : String) (hc : isCacheName nm = true)
+    (hfresh : find w (dir ++ [nm]) = none) (n : Node) (hn : find w' (dir ++ [nm]) = some n)
+    (hbad : P.parse n.data = none)
+    (hsame : ∀ x, isCacheName x = true → x ≠ nm → find w' (dir ++ [x]) = find w (dir ++ [x])) :
+    getCachedConfig P w' dir = getCachedConfig P w dir := by
+  have hL : cacheList w' dir = insertDesc nm (cacheList w dir) := by
+    apply List.Perm.eq_of_pairwise (le := fun a b => b ≤ a)
+    · intro a b _ _ h1 h2; exact String.le_antisymm h2 h1
+    · exact sorted_cacheList w' dir
+    · exact insertDesc_sorted nm _ (sorted_cacheList w dir)
+    · have hnd2 : (insertDesc nm (cacheList w dir)).Nodup := by
+        refine (insertDesc_perm nm _).symm.nodup (List.nodup_cons.mpr ⟨fun hm => ?_, nodup_cacheList w dir⟩)
+        have := ((mem_cacheList w dir nm).mp hm).2
+        rw [hfresh] at this; simp at this
+      rw [List.perm_ext_iff_of_nodup (nodup_cacheList w' dir) hnd2]
+      intro a
+      rw [(insertDesc_perm nm _).mem_iff, List.mem_cons, mem_cacheList, mem_cacheList]
+      by_cases e : a = nm
+      · subst e; simp [hc, hn]
+      · constructor
+        · rintro ⟨h1, h2⟩; exact Or.inr ⟨h1, by rw [← hsame a h1 e]; exact h2⟩
+        · rintro (h | ⟨h1, h2⟩)
+          · exact absurd h e
+          · exact ⟨h1, by rw [hsame a h1 e]; exact h2⟩
+  rw [getCached_eq P hB I, getCached_eq P hB I', hL]
+  have hnm : readParse P w' dir nm = none := by
+    rw [readParse_entry P I' nm (isCacheName_simple hc), hn]; exact hbad
+  rw [findSome_insertDesc _ nm hnm]
+  apply findSome_congr
+  intro x hx
+  have hxc := ((mem_cacheList w dir x).mp hx).1
+  have hxn : x ≠ nm := by
+    intro e; subst e
+    have := ((mem_cacheList w dir x).mp hx).2
+    rw [hfresh] at this; simp at this
+  rw [readParse_entry P I' x (isCacheName_simple hxc), readParse_entry P I x (isCacheName_simple hxc), hsame x hxc hxn]
 
 end C45
